@@ -39,7 +39,7 @@ def cases(tier, seed):
     nrand = 1500 if tier == "quick" else 40000
     for i in range(nrand):
         ps = gen.rand_spec(rng, gen.CONVEX, nmax=12, nmin=1,
-                           boxes=("none", "mixed", "mixed", "boxed", "narrow", "lower", "upper", "boxed_degenerate"),
+                           boxes=("none", "mixed", "mixed", "boxed", "narrow", "lower", "upper", "boxed_degenerate", "nonneg", "unit", "zero_mixed"),
                            starts=("interior", "face", "vertex", "outward", "outward"))
         yield {"kind": "random", "problem": ps, "maxcor": int(rng.integers(1, 11))}
     nmax = 2 if tier == "quick" else 3
